@@ -156,10 +156,16 @@ func (st *State) entTerminal(fr *Frame, in ssa.CallInstruction, callee *ssa.Func
 				st.assume(Forall([]*Term{y}, Implies(st.selFormula(st.heap, b, y), Eq(y, r))))
 			} else if key, desc, ok := st.orderKey(st.heap, b, r); ok {
 				ky, _, _ := st.orderKey(st.heap, b, y)
+				cmpT := func(a, c *Term) *Term {
+					if a.Sort == SStr {
+						return App(SBool, st.declareFun("str_le", []Sort{SStr, SStr}, SBool), a, c)
+					}
+					return Le(a, c)
+				}
 				if desc {
-					st.assume(Forall([]*Term{y}, Implies(st.selFormula(st.heap, b, y), Ge(key, ky))))
+					st.assume(Forall([]*Term{y}, Implies(st.selFormula(st.heap, b, y), cmpT(ky, key))))
 				} else {
-					st.assume(Forall([]*Term{y}, Implies(st.selFormula(st.heap, b, y), Le(key, ky))))
+					st.assume(Forall([]*Term{y}, Implies(st.selFormula(st.heap, b, y), cmpT(key, ky))))
 				}
 			}
 			var res SVal
@@ -265,8 +271,9 @@ func (st *State) queryRows(b *entBuilder) (rows *Term, n *Term) {
 	x := st.qv("x")
 	complete := Forall([]*Term{x}, Implies(st.selFormula(h, b, x), And(inRange(Select(pos, x)), Eq(Select(rows, Select(pos, x)), x))), st.rowLive(h, b.Table, x))
 	if b.Limit != nil {
-		st.assume(Le(n, b.Limit))
-		st.assume(Implies(Lt(n, b.Limit), complete))
+		// a negative LIMIT means "no limit" (SQLite); PostgreSQL rejects it (covered by the failure path)
+		st.assume(Implies(Ge(b.Limit, IntLit(0)), Le(n, b.Limit)))
+		st.assume(Implies(Or(Lt(n, b.Limit), Lt(b.Limit, IntLit(0))), complete))
 	} else {
 		st.assume(complete)
 	}
@@ -275,6 +282,14 @@ func (st *State) queryRows(b *entBuilder) (rows *Term, n *Term) {
 		ki, desc, _ := st.orderKey(h, b, ri)
 		kj, _, _ := st.orderKey(h, b, Select(rows, j))
 		le := func(a, c *Term) *Term {
+			if a.Sort == SStr {
+				// lexicographic order on strings: an uninterpreted total preorder
+				f := st.declareFun("str_le", []Sort{SStr, SStr}, SBool)
+				if desc {
+					return App(SBool, f, c, a)
+				}
+				return App(SBool, f, a, c)
+			}
 			if desc {
 				return Ge(a, c)
 			}
